@@ -560,7 +560,7 @@ fill_yly_ycw(bitint383_t *restrict cand, unsigned int y, const bitint447_t *dow)
 static void
 fill_yly_yd(
 	bitint383_t *restrict cand, unsigned int y,
-	const bitint383_t *doy, uint8_t wd_mask)
+	const bitint383_t *doy, uint8_t wd_mask, unsigned int m_mask)
 {
 	int yd;
 
@@ -579,6 +579,9 @@ fill_yly_yd(
 			continue;
 		} else if (!(md = yd_to_md(y, yd)).m || md.m > 12U) {
 			/* no such day this year, e.g. 366 */
+			continue;
+		} else if (m_mask && !((m_mask >> md.m) & 0b1U)) {
+			/* month is masked out */
 			continue;
 		}
 		/* otherwise it's looking good */
@@ -1064,9 +1067,14 @@ rrul_fill_yly(echs_instant_t *restrict tgt, size_t nti, rrulsp_t rr)
 			fill_yly_yd_all(cand, y, wd_mask);
 		}
 
-		/* extend by yd */
+		/* extend by yd, months limit the days of the year */
 		if (srcsca == SCALE_GREGORIAN) {
-			fill_yly_yd(cand, y, &rr->doy, wd_mask);
+			unsigned int m_mask = 0U;
+
+			for (size_t i = 0U; i < nm; i++) {
+				m_mask |= 1U << m[i];
+			}
+			fill_yly_yd(cand, y, &rr->doy, wd_mask, m_mask);
 		}
 
 		/* extend by ymd */
@@ -1079,6 +1087,9 @@ rrul_fill_yly(echs_instant_t *restrict tgt, size_t nti, rrulsp_t rr)
 				rr->mon, rr->dom, wd_mask);
 		} else if (!nm && !nd) {
 			/* don't fill up any ymds */
+			;
+		} else if (!nd && bi383_has_bits_p(&rr->doy)) {
+			/* months only limited the days of the year */
 			;
 		} else if (!nm) {
 			fill_yly_ymd_all_m(cand, srcsca, y, d, nd, wd_mask);
